@@ -205,6 +205,25 @@ def judge(c, d, out, rc, err):
             add("resume", "chain:%s:%s:%s" % (fam, obs_class(obs), when),
                 "stopped after step %d, resumed, stopped after step %d, resumed (%s states): %s %s is %r, in the uninterrupted run %r"
                 % (it0 + K1, it0 + K2, fmt, "at step %d" % (it0 + t) if t is not None else "in the final state", obs, y, x), K2, fmt, t=t, obs=obs)
+    # a rejected configuration before the state is loaded, biases defined in another order: same resumed run
+    for K in c.get("reject_Ks", []):
+        Er, B = runs.get("E_%d" % K), runs.get("B_%d_text" % K)
+        if Er is None or B is None:
+            add("harness", "harness:%s:run-missing" % fam, "run E_%d missing (rc=%s) %s" % (K, rc, err[-200:]), K, "text")
+            continue
+        ev = [e for e in Er["events"] if "err=ok" not in e]
+        if len(ev) != 1 or not ev[0].startswith("CONFIG"):
+            add("load-error", "rejected-config:%s:events" % fam,
+                "a configuration with a bias on an undefined variable is rejected, then the state of step %d is loaded: events %s"
+                % (it0 + K, ev[:3]), K, "text")
+            continue
+        dd = first_diff(B["steps"], Er["steps"], pre + "B_%d_text.colvars.state" % K, pre + "E_%d.colvars.state" % K, off=0)
+        if dd:
+            t, (obs, x, y) = dd
+            add("resume", "rejected-config:%s:%s" % (fam, obs_class(obs)),
+                "resumed job with its biases defined in the opposite order and one rejected configuration before the state of step "
+                "%d is loaded: %s %s is %r, in the plain resumed job %r"
+                % (it0 + K, "at step %d" % (it0 + K + t) if t is not None else "in the final state", obs, y, x), K, "text")
     # state handed over as a buffer in memory: same as through a file
     for K, fmt in c.get("buffer_Ks", []):
         lab = "%d_%s" % (K, fmt)
